@@ -251,6 +251,111 @@ theorem applyCalls_iter_of_log {α : Type} (xs : List α) (w : Nat) (hw : 1 ≤ 
   simp only []
   cases h : xs[e]? <;> simp [h]
 
+def calls2OfLogTo {α β : Type} (xs : List α) (ys : List β) (log : List (Nat × Option (Nat × Nat) × (Nat × Nat))) :
+    List (Option (α × β) × (α × β)) :=
+  log.filterMap fun ev =>
+    match xs[ev.2.2.1]?, ys[ev.2.2.2]? with
+    | some a, some b => some (ev.2.1.bind (fun p => match xs[p.1]?, ys[p.2]? with
+                                        | some x, some y => some (x, y) | _, _ => none), (a, b))
+    | _, _ => none
+
+def calls2OfLogIter {α β : Type} (xs : List α) (ys : List β) (log : List (Option (Nat × Nat) × (Nat × Nat))) :
+    List (Option (α × β) × (α × β)) :=
+  log.filterMap fun ev =>
+    match xs[ev.2.1]?, ys[ev.2.2]? with
+    | some a, some b => some (ev.1.bind (fun p => match xs[p.1]?, ys[p.2]? with
+                                        | some x, some y => some (x, y) | _, _ => none), (a, b))
+    | _, _ => none
+
+theorem apply2Calls_to_of_log {α β : Type} (xs : List α) (ys : List β) (w : Nat) (hw : 1 ≤ w)
+    (hlen : xs.length ≤ ys.length) :
+    ∃ log, GenDrv.rolling2_apply_to.run xs.length ys.length w = some log ∧
+      apply2Calls .to xs ys w = calls2OfLogTo xs ys log := by
+  refine ⟨_, rolling2_apply_to_eq xs.length ys.length w (Or.inl hw) hlen, ?_⟩
+  unfold apply2Calls calls2OfLogTo Shape.idx
+  rw [List.filterMap_map]
+  apply List.filterMap_congr
+  rintro ⟨s, e⟩ _
+  simp only [Function.comp]
+  cases h1 : xs[e]? <;> cases h2 : ys[e]? <;> simp [h1, h2]
+  cases s with
+  | none => simp
+  | some k => simp; cases xs[k]? <;> cases ys[k]? <;> rfl
+
+theorem apply2Calls_iter_of_log {α β : Type} (xs : List α) (ys : List β) (w : Nat) (hw : 1 ≤ w) :
+    ∃ log, GenDrv.rolling2_apply.run xs.length xs.length w = some log ∧
+      apply2Calls .iter xs ys w = calls2OfLogIter xs ys log := by
+  refine ⟨_, rolling2_apply_iter_eq xs.length w hw, ?_⟩
+  unfold apply2Calls calls2OfLogIter Shape.idx
+  rw [List.filterMap_map]
+  apply List.filterMap_congr
+  rintro ⟨s, e⟩ _
+  simp only [Function.comp]
+  cases h1 : xs[e]? <;> cases h2 : ys[e]? <;> simp [h1, h2]
+  cases s with
+  | none => simp
+  | some k => simp; cases xs[k]? <;> cases ys[k]? <;> rfl
+
+def idxCallsOfLogTo {α : Type} (xs : List α) (log : List (Nat × Option Nat × Nat × Nat)) :
+    List (Option Nat × Nat × α) :=
+  log.filterMap fun ev => (xs[ev.2.2.2]?).map fun v => (ev.2.1, ev.2.2.1, v)
+
+def idxCallsOfLogIter {α : Type} (xs : List α) (log : List (Option Nat × Nat × Nat)) :
+    List (Option Nat × Nat × α) :=
+  log.filterMap fun ev => (xs[ev.2.2]?).map fun v => (ev.1, ev.2.1, v)
+
+theorem idxCalls_to_of_log {α : Type} (xs : List α) (w : Nat) (hw : 1 ≤ w) :
+    ∃ log, GenDrv.rolling_apply_idx_to.run xs.length w = some log ∧ idxCalls .to xs w = idxCallsOfLogTo xs log := by
+  refine ⟨_, rolling_apply_idx_to_eq xs.length w (Or.inl hw), ?_⟩
+  unfold idxCalls idxCallsOfLogTo Shape.idx
+  rw [List.filterMap_map]
+  apply List.filterMap_congr
+  rintro ⟨s, e⟩ _
+  rfl
+
+theorem idxCalls_iter_of_log {α : Type} (xs : List α) (w : Nat) (hw : 1 ≤ w) :
+    ∃ log, GenDrv.rolling_apply_idx.run xs.length w = some log ∧ idxCalls .iter xs w = idxCallsOfLogIter xs log := by
+  refine ⟨_, rolling_apply_idx_iter_eq xs.length w hw, ?_⟩
+  unfold idxCalls idxCallsOfLogIter Shape.idx
+  rw [List.filterMap_map]
+  apply List.filterMap_congr
+  rintro ⟨s, e⟩ _
+  rfl
+
+/-! ### end-to-end statements: a property of the callback sequence holds for the replay of the
+regenerated driver's log, for both driver shapes -/
+
+def E2E {α : Type} (P : List (Option α × α) → Prop) (xs : List α) (w : Nat) : Prop :=
+  (∃ log, GenDrv.rolling_apply_to.run xs.length w = some log ∧ P (callsOfLogTo xs log)) ∧
+  (∃ log, GenDrv.rolling_apply.run xs.length w = some log ∧ P (callsOfLogIter xs log))
+
+theorem e2e_apply {α : Type} (P : List (Option α × α) → Prop) (xs : List α) (w : Nat) (hw : 1 ≤ w)
+    (hto : P (applyCalls .to xs w)) (hit : P (applyCalls .iter xs w)) : E2E P xs w := by
+  obtain ⟨l1, a1, b1⟩ := applyCalls_to_of_log xs w hw
+  obtain ⟨l2, a2, b2⟩ := applyCalls_iter_of_log xs w hw
+  exact ⟨⟨l1, a1, b1 ▸ hto⟩, ⟨l2, a2, b2 ▸ hit⟩⟩
+
+def E2E2 {α β : Type} (P : List (Option (α × β) × (α × β)) → Prop) (xs : List α) (ys : List β) (w : Nat) : Prop :=
+  (∃ log, GenDrv.rolling2_apply_to.run xs.length ys.length w = some log ∧ P (calls2OfLogTo xs ys log)) ∧
+  (∃ log, GenDrv.rolling2_apply.run xs.length xs.length w = some log ∧ P (calls2OfLogIter xs ys log))
+
+theorem e2e_apply2 {α β : Type} (P : List (Option (α × β) × (α × β)) → Prop) (xs : List α) (ys : List β)
+    (w : Nat) (hw : 1 ≤ w) (hlen : xs.length ≤ ys.length)
+    (hto : P (apply2Calls .to xs ys w)) (hit : P (apply2Calls .iter xs ys w)) : E2E2 P xs ys w := by
+  obtain ⟨l1, a1, b1⟩ := apply2Calls_to_of_log xs ys w hw hlen
+  obtain ⟨l2, a2, b2⟩ := apply2Calls_iter_of_log xs ys w hw
+  exact ⟨⟨l1, a1, b1 ▸ hto⟩, ⟨l2, a2, b2 ▸ hit⟩⟩
+
+def E2EIdx {α : Type} (P : List (Option Nat × Nat × α) → Prop) (xs : List α) (w : Nat) : Prop :=
+  (∃ log, GenDrv.rolling_apply_idx_to.run xs.length w = some log ∧ P (idxCallsOfLogTo xs log)) ∧
+  (∃ log, GenDrv.rolling_apply_idx.run xs.length w = some log ∧ P (idxCallsOfLogIter xs log))
+
+theorem e2e_idx {α : Type} (P : List (Option Nat × Nat × α) → Prop) (xs : List α) (w : Nat) (hw : 1 ≤ w)
+    (hto : P (idxCalls .to xs w)) (hit : P (idxCalls .iter xs w)) : E2EIdx P xs w := by
+  obtain ⟨l1, a1, b1⟩ := idxCalls_to_of_log xs w hw
+  obtain ⟨l2, a2, b2⟩ := idxCalls_iter_of_log xs w hw
+  exact ⟨⟨l1, a1, b1 ▸ hto⟩, ⟨l2, a2, b2 ▸ hit⟩⟩
+
 /-! ## the backend overrides run the `*_to` drivers on a buffer of `self.len()` slots -/
 
 /-- every override of a rolling method in backends_impl/vec.rs and ndarray.rs binds `len` to
